@@ -66,6 +66,7 @@ class Res:
         self.nontrivial = set()   # hashes of distinct non-trivial cases (rule in the property module)
         self.fails = []           # dicts: case, symptom, detail, params, replay
         self.nfails = 0
+        self.fail_index = {}      # case -> (symptom, params) for ALL failing cases (details only for the first MAX_FAILS_KEPT)
         self.samples = []
         self.outcomes = Counter()  # free-form outcome classes, for reading (vacuity detection)
         self.extra = {}
@@ -78,6 +79,7 @@ class Res:
 
     def fail(self, case, symptom, detail='', params=None, replay=None, script=None):
         self.nfails += 1
+        self.fail_index[case] = (symptom, params or {})
         if len(self.fails) < self.MAX_FAILS_KEPT:
             self.fails.append({'case': case, 'symptom': symptom, 'detail': str(detail)[:2000],
                                'params': params or {}, 'replay': replay, 'script': script})
@@ -95,6 +97,7 @@ class Res:
         room = self.MAX_FAILS_KEPT - len(self.fails)
         self.fails.extend(o.fails[:max(room, 0)])
         self.nfails += o.nfails
+        self.fail_index.update(o.fail_index)
         for s in o.samples:
             self.sample(s)
         self.outcomes.update(o.outcomes)
@@ -157,7 +160,12 @@ def load_findings():
     if not os.path.exists(path):
         return []
     with open(path) as f:
-        return json.load(f)['findings']
+        fs = json.load(f)['findings']
+    for k in fs:
+        if k.get('cases_file'):
+            with open(os.path.join(VERIF, k['cases_file'])) as f:
+                k['case_symptoms'] = json.load(f)  # {case id: exact symptom}
+    return fs
 
 
 def match_finding(f, findings, pid):
@@ -171,6 +179,8 @@ def match_finding(f, findings, pid):
         if 'symptoms' in k and f['symptom'] not in k['symptoms']:
             continue
         if 'cases' in k and f['case'] in k['cases']:
+            return k
+        if 'case_symptoms' in k and k['case_symptoms'].get(f['case']) == f['symptom']:
             return k
         sel = k.get('selector')
         if sel and all(f['params'].get(a) == b for a, b in sel.items()):
@@ -187,6 +197,7 @@ def main(argv):
     ap.add_argument('--jobs', type=int, default=int(os.environ.get('PFSTMC_JOBS', '0')) or min(16, os.cpu_count() or 1))
     ap.add_argument('--only', help='substring filter on shard descriptors (debugging; marks run non-exhaustive)')
     ap.add_argument('--no-evidence', action='store_true')
+    ap.add_argument('--dump-fails', help='write {case: symptom} of every failing case (triage / recording findings)')
     ap.add_argument('--list-fails', action='store_true', help='print every failing case id (triage)')
     args = ap.parse_args(argv)
 
@@ -248,16 +259,19 @@ def main(argv):
     # ---- verdict ------------------------------------------------------------------------------------------------
     findings = load_findings()
     new, known = [], {}
-    for fl in total.fails:
+    detailed = {fl['case']: fl for fl in total.fails}
+    for case, (sym, params) in total.fail_index.items():
+        fl = detailed.get(case) or {'case': case, 'symptom': sym, 'detail': '(detail not kept: beyond the first '
+                                    f'{Res.MAX_FAILS_KEPT} failures)', 'params': params, 'replay': None, 'script': None}
         k = match_finding(fl, findings, pid)
         if k is None:
             new.append(fl)
         else:
             known.setdefault(k['id'], [k, 0])[1] += 1
-    overflow = total.nfails - len(total.fails)
-    if overflow > 0:  # more failures than kept: cannot attribute them, so they count as new
-        new.append({'case': f'{pid}/overflow', 'symptom': 'too-many-failures', 'detail': f'{overflow} further failing cases not kept',
-                    'params': {}, 'replay': None, 'script': None})
+    new.sort(key=lambda fl: (fl['replay'] is None, len(fl['case'])))  # shortest replayable counter-example first
+    if args.dump_fails:
+        with open(args.dump_fails, 'w') as f:
+            json.dump({c: s for c, (s, _) in sorted(total.fail_index.items())}, f, indent=0)
     if capped:
         print(f'NOTE: hard time cap {budget}s hit after {done}/{len(shards)} shards; run is NOT exhaustive')
 
